@@ -308,8 +308,10 @@ def _run(prop, tier, seed, nshards, n, deadline, jobs, work, a, t0):
       "wall_s": round(wall, 2),
       "violations": len(real),
   }
-  os.makedirs(os.path.join(HERE, "evidence"), exist_ok=True)
-  with open(os.path.join(HERE, "evidence", "%s.json" % prop), "w") as f:
+  # VERIF_EVIDENCE_DIR: developer override (trials against patched scratch trees must not overwrite the evidence of /repo)
+  edir = os.environ.get("VERIF_EVIDENCE_DIR") or os.path.join(HERE, "evidence")
+  os.makedirs(edir, exist_ok=True)
+  with open(os.path.join(edir, "%s.json" % prop), "w") as f:
     json.dump(core.to_jsonable(evidence), f, indent=1)
 
   print("%s tier=%s seed=%d: %d cases (%d distinct non-trivial), %d oracle evaluations over %d monitor sites, %.0fs, shards lost=%d" % (
